@@ -44,12 +44,14 @@ def same(a, b):
     return a == b
 
 
-def load(I, data):
+def load(I, data, json_sourced=False):
     js = Slice(list(data), 0, len(data))
     r = I.call("yaml::index::YamlIndex::build", [js])
     if not (isinstance(r, Adt) and r.vname == "Ok"):
         return ("error", r.fields[0] if isinstance(r, Adt) else r)
     ix = r.fields[0]
+    if json_sourced:
+        I.call("yaml::index::YamlIndex::<W>::mark_json_sourced", [tmp_ref(ix)])
     root = I.call("yaml::index::YamlIndex::<W>::root", [tmp_ref(ix), js])
     out = I.call("yaml::light::YamlCursor::<'a, W>::to_json_document", [tmp_ref(root)])
     if isinstance(out, StrBuf):
@@ -158,4 +160,58 @@ def rule_load(progs, tier, name="YAMLLOAD", n_quick=160, n_thorough=1500):
         res.cells += nrun
         res.engines += 1
         res.ok({"streams": len(fam), "named_documents": len(NAMED), "evaluations": nrun, "dropped_by_pyyaml_crosscheck": dropped})
+    return out
+
+
+def rule_load_json(progs, tier, name="YAMLLOAD(json)", n_quick=50, n_thorough=600):
+    """C26, identity clause: the same tree supplied as JSON text (compact and indented; non-ASCII raw
+    and \\u-escaped) goes through the route yq uses for JSON input (`YamlIndex::build` +
+    `mark_json_sourced`) and must load as the tree, as its block / flow YAML renderings must
+    (YAMLLOAD); so the three renderings agree."""
+    out = []
+    for cfg, P in progs.items():
+        res = RuleResult(name, cfg)
+        out.append(res)
+        I = Interp(P, max_steps=80000000, max_depth=300)
+        n = n_thorough if tier == "thorough" else n_quick
+        fam, dropped = yamlgen.streams(n, seed0=9000, max_depth=3, want_selfcheck=False)
+        nrun = 0
+        flip = 0
+        crashed = False
+        for seed, _text, docs in fam:
+            tree = docs[0]
+            for vname, t in (("compact", json.dumps(tree, ensure_ascii=False, separators=(",", ":"))), ("indented-ascii", json.dumps(tree, indent=2) + "\n")):
+                flip ^= 1
+                I.features = {"avx2": bool(flip), "bmi2": bool(flip), "sse4.1": True, "sse4.2": True, "ssse3": True, "sse2": True}
+                for f in ("util::simd::x86::has_fast_bmi2", "bits::scan::has_avx2"):
+                    I.overrides[f] = lambda a, f=flip: f
+                I.overrides["yaml::simd::x86::avx2_enabled"] = lambda a, f=flip: f
+                I.overrides["util::simd::escape::avx2_enabled"] = lambda a, f=flip: f
+                I.statics.clear()
+                key = "%s:tree-%d-%s" % (name, seed, vname)
+                nrun += 1
+                try:
+                    kind, val = load(I, t.encode("utf-8"), json_sourced=True)
+                except Panic as e:
+                    res.bad(key, "the loader panics on the JSON text %r: %s" % (t[:120], e))
+                    continue
+                except (Unsupported, KeyError, IndexError, AttributeError, TypeError) as e:
+                    res.bad("%s:evaluate" % name, "cannot evaluate the loader on the JSON text %r: %r" % (t[:120], e))
+                    crashed = True
+                    break
+                if kind == "error":
+                    res.bad(key, "the loader rejects the JSON text %r: %r" % (t[:160], val))
+                    continue
+                try:
+                    got = json.loads(val)
+                except ValueError as e:
+                    res.bad(key, "to_json_document() of the JSON text %r is not JSON: %r" % (t[:120], val[:120]))
+                    continue
+                if not same(got, tree):
+                    res.bad(key, "the JSON text %r loads as %s" % (t[:200], json.dumps(got)[:200]))
+            if crashed:
+                break
+        res.cells += nrun
+        res.engines += 1
+        res.ok({"trees": len(fam), "evaluations": nrun})
     return out
